@@ -30,7 +30,7 @@ type zInput struct {
 	Class string `json:"class"`
 	Base  string `json:"base"`
 	Pos   int    `json:"pos"`
-	Of    int    `json:"of,omitempty"` // denominator for pos (0 = the spec's Positions constant)
+	Of    int    `json:"of,omitempty"`   // denominator for pos (0 = the spec's Positions constant)
 	Blob  string `json:"blob,omitempty"` // class "fuzz": the encoded input itself
 }
 type zCfg struct {
